@@ -503,9 +503,23 @@ class MemoryFS(FS):
             if not src_entry.is_dir:
                 raise errors.DirectoryExpected(src_path)
 
-            # move the entry from the src folder to the dst folder
+            # an existing destination keeps its content: merge like the base class
             dst_dir_entry = self._get_dir_entry(dst_dir)
-            if dst_dir_entry is None or (not create and dst_name not in dst_dir_entry):
+            if _dst_path == "/" or (
+                dst_dir_entry is not None
+                and dst_dir_entry.is_dir
+                and dst_name in dst_dir_entry
+            ):
+                return super(MemoryFS, self).movedir(
+                    src_path, dst_path, create=create, preserve_time=preserve_time
+                )
+
+            # move the entry from the src folder to the dst folder
+            if (
+                dst_dir_entry is None
+                or not dst_dir_entry.is_dir
+                or (not create and dst_name not in dst_dir_entry)
+            ):
                 raise errors.ResourceNotFound(dst_path)
 
             # move the entry from the src folder to the dst folder
